@@ -164,6 +164,7 @@ type cstate struct {
 	PongDelays []time.Duration `json:"pong_delays,omitempty"`
 	StopAt     int           `json:"stop_ponging_at_ping"` // <0: answer all
 	LatePong   time.Duration `json:"late_pong_after_timeout,omitempty"`
+	Chatty     bool          `json:"other_commands_after_unanswered_pings,omitempty"` // keeps sending RPC commands (never a pong) once it stopped answering
 	ExpMode    string        `json:"exp_mode,omitempty"` // client | client-nohandler | server-handler | server-nohandler
 	Exp0       int64         `json:"expire_at,omitempty"`
 	SrvExt     []int         `json:"handler_extensions,omitempty"`
@@ -380,6 +381,10 @@ func (st *cstate) onFrame(f kit.Frame) {
 	case idx == st.StopAt && st.LatePong > 0:
 		d = st.T + st.LatePong
 	}
+	if st.Chatty && st.StopAt >= 0 && idx >= st.StopAt && !st.stopped {
+		// traffic that is not a pong must not count as one
+		st.timers = append(st.timers, time.AfterFunc(st.T/2, st.chatter))
+	}
 	if d == 0 && !st.stopped {
 		// not time.AfterFunc(0, ..): a bubbled timer that is due immediately runs on the
 		// caller's system stack and has crashed the go1.26 runtime under -race
@@ -403,6 +408,17 @@ func (st *cstate) pong() {
 		st.pongFalse++
 		st.mu.Unlock()
 	}
+}
+
+func (st *cstate) chatter() {
+	st.mu.Lock()
+	stopped := st.stopped
+	st.mu.Unlock()
+	if stopped {
+		return
+	}
+	st.x.c.Count("nopong_other_commands_sent_instead_of_pong", 1)
+	st.conn.Do(&protocol.Command{Id: st.conn.NextID(), Rpc: &protocol.RPCRequest{Method: "c36"}})
 }
 
 func (st *cstate) connect() {
@@ -551,6 +567,7 @@ func (x *cworld) genConn(idx int) *cstate {
 	case st.Kind == "pong":
 		prelude = r.Chance(1, 40)
 		st.StopAt = r.Range(-1, 3)
+		st.Chatty = st.StopAt >= 0 && idx%2 == 0
 		if st.StopAt >= 0 && r.Chance(1, 3) {
 			st.LatePong = ms(10)
 		}
@@ -1330,7 +1347,7 @@ func TestC36(t *testing.T) {
 	kit.Main(t, kit.Spec{
 		ID:     "C36",
 		Bubble: true,
-		Rule: "one virtual-time bubble per case: a node with random ClientStaleCloseDelay {2,5,15(default),40}s, ClientExpiredCloseDelay / ClientExpiredSubCloseDelay {3,4,12,25(default)}s, ClientPresenceUpdateInterval {1,3,8,25(default)}s, default timers or a harness TimerScheduler (time.AfterFunc in the bubble; callbacks run directly or on one shared worker goroutine), and 3-6 connections (JSON/Protobuf), each with one scenario: stale (never connects / connects before or just after the delay / connect rejected), pong (ping interval 2-25 s and pong timeout 0.5-10 s from the transport or ConnectReply.PingPongConfig; pongs after 0, 1 ms, T/2, T-10 ms; stops at ping #k, optionally a late pong at T+10 ms), connection expiry (client-side refresh with/without OnRefresh, server-side OnRefresh handler extending n times then Expired, no handler; client refresh commands, Client.Refresh and Node.Refresh on a grid around the deadline: midway, -2 s, -500 ms, -10 ms, +10 ms, +<1 s, +3 s, and the exact instant the expire timer fires; ExpireAt 0 and Expired variants), subscription expiry (client-side subscription with client-side sub-refresh on the same grid, server-driven OnSubRefresh, no handler; server-side subscription from ConnectReply.Subscriptions or Client.Subscribe, with/without OnSubRefresh). One in 40 of the pong/subscription scenarios start with an expiring connection switched to no-expiration by a server-side refresh. " +
+		Rule: "one virtual-time bubble per case: a node with random ClientStaleCloseDelay {2,5,15(default),40}s, ClientExpiredCloseDelay / ClientExpiredSubCloseDelay {3,4,12,25(default)}s, ClientPresenceUpdateInterval {1,3,8,25(default)}s, default timers or a harness TimerScheduler (time.AfterFunc in the bubble; callbacks run directly or on one shared worker goroutine), and 3-6 connections (JSON/Protobuf), each with one scenario: stale (never connects / connects before or just after the delay / connect rejected), pong (ping interval 2-25 s and pong timeout 0.5-10 s from the transport or ConnectReply.PingPongConfig; pongs after 0, 1 ms, T/2, T-10 ms; stops at ping #k, optionally a late pong at T+10 ms, and on every other such connection an RPC command at T/2 after each unanswered ping: traffic that is not a pong), connection expiry (client-side refresh with/without OnRefresh, server-side OnRefresh handler extending n times then Expired, no handler; client refresh commands, Client.Refresh and Node.Refresh on a grid around the deadline: midway, -2 s, -500 ms, -10 ms, +10 ms, +<1 s, +3 s, and the exact instant the expire timer fires; ExpireAt 0 and Expired variants), subscription expiry (client-side subscription with client-side sub-refresh on the same grid, server-driven OnSubRefresh, no handler; server-side subscription from ConnectReply.Subscriptions or Client.Subscribe, with/without OnSubRefresh). One in 40 of the pong/subscription scenarios start with an expiring connection switched to no-expiration by a server-side refresh. " +
 			"Oracle (timing model, per connection): the instant and code of transport.Close and of unsubscribe pushes are recorded on the virtual clock; stale => 3502 at create+delay (+-1 s) unless authenticated before; no pong => 3012 at (unanswered ping)+timeout (-2 ms/+1 s), never before the timeout of the last ping ran out, never when every ping was answered in time; expiry => walking the acknowledged refreshes, termination (3005 / unsubscribe push 2501 / 3006 for server-side subscriptions; a client-side sub-refresh answered Expired must end the subscription at once, by closing the connection with 3005 as documented or by the unsubscribe push, and that close is not judged as a connection expiry) must fall in [expire_at+grace-2 s, expire_at+grace+2 s (+1 s + one presence interval for subscriptions)], a refresh at or before the lower bound must be acknowledged and the connection/subscription must outlive it; refreshes inside the window may go either way (the oracle follows the acknowledgement). Signature = scheduler + sorted per-connection outcomes.",
 		Assumptions: []string{
 			"deadlines are compared with a 2 s margin (plus 1 s + one presence interval for tick-driven subscription expiry): an off-by-one-second error in the Unix-second arithmetic is not detected by design",
@@ -1339,7 +1356,7 @@ func TestC36(t *testing.T) {
 			"bidirectional transports only (unidirectional ones have no pong)",
 		},
 		Cases: map[string]int{"quick": 1600, "thorough": 24000},
-		RequireCounters: []string{
+		RequireCounters: []string{"nopong_other_commands_sent_instead_of_pong", 
 			"stale_closed", "stale_survived_after_connect", "nopong_closed", "nopong_closed_late_pong", "pong_answered_survived",
 			"conn_expiry_expired", "conn_expiry_alive-refreshed", "conn_expiry_alive-no-expiry", "conn_expiry_expired-by-refresher",
 			"conn-expiry_refresh_in_time", "conn-expiry_refresh_ambiguous_accepted", "conn-expiry_refresh_ambiguous_rejected", "conn-expiry_refresh_late_rejected", "conn-expiry_refresh_applied",
